@@ -268,6 +268,7 @@ func (e *Engine) lookupMethod(rt *RType, m *types.Func) *ssa.Function {
 func (s *State) raise(t *Thread, val Value) {
 	t.panicking = true
 	t.panicVal = val
+	t.unwindAt = -1
 }
 
 // unwindStep advances panic unwinding by one action.
@@ -282,7 +283,8 @@ func (s *State) unwindStep(w *Worker, t *Thread) {
 		fr.defers = fr.defers[:len(fr.defers)-1]
 		fr.unwinding = true
 		n := len(t.frames)
-		s.doCall(w, t, fr, d.fn, d.args, -1, d.call)
+		t.unwindAt = n - 1
+		s.doCallSafe(w, t, fr, d)
 		if len(t.frames) > n {
 			nf := t.top()
 			nf.byUnwind = true
@@ -292,6 +294,7 @@ func (s *State) unwindStep(w *Worker, t *Thread) {
 	}
 	// no more defers: pop the frame and keep unwinding
 	t.frames = t.frames[:len(t.frames)-1]
+	t.unwindAt = -1
 }
 
 func (s *State) finishPanic(t *Thread) {
